@@ -203,6 +203,51 @@ def valid_rxring(c):
     return len(c) >= 1 and len(c) % 3 == 1 and 0 <= c[0] <= 6 and all(0 <= o <= 3 for o in c[1::3]) and all(0 <= a <= 100000 for a in c[2::3] + c[3::3])
 
 
+def gen_txrings(rng):
+    nr = rng.choice([0, 1, 1, 2, 2])          # rings - 1
+    k = rng.choice([0, 1, 1, 2, 3])
+    size = 1 << k
+    n = rng.choice([2, 4, 8, 16, 30])
+    case = [nr, k]
+    for _ in range(n):
+        r = rng.random()
+        if r < 0.35:
+            a = rng.choice([0, 1, size - 1, size, size + 1, 2 * size, 2 * size + 1, 3 * size, rng.randrange(0, 3 * size + 3)])
+            case += [0, max(0, min(a, 64)), 0]
+        elif r < 0.65:
+            case += [1, rng.randrange(0, 3), 0]
+        elif r < 0.9:
+            case += [2, rng.randrange(0, 3), rng.choice([0, 1, 1, 2, size, 70000])]
+        else:
+            case += [3, 0, 0]
+    return case
+
+
+def fixed_txrings(tier):
+    import itertools
+    out = []
+    L = 4 if tier == "quick" else 5
+    for nr in (0, 1, 2):
+        for k in (0, 1):
+            size = 1 << k
+            alpha = [(0, 1, 0), (0, size + 1, 0), (0, 2 * size + 1, 0), (1, 0, 0), (1, 1, 0), (2, 0, 9), (2, 1, 1), (3, 0, 0)]
+            if nr == 2:
+                alpha.append((1, 2, 0))
+            for n in range(1, L + 1):
+                if nr == 2 and n == L:
+                    continue
+                for t in itertools.product(alpha, repeat=n):
+                    c = [nr, k]
+                    for op in t:
+                        c += list(op)
+                    out.append(c)
+    return out
+
+
+def valid_txrings(c):
+    return len(c) >= 2 and len(c) % 3 == 2 and 0 <= c[0] <= 2 and 0 <= c[1] <= 4 and all(0 <= o <= 3 for o in c[2::3]) and all(0 <= a <= 64 for a in c[3::3]) and all(0 <= b <= 100000 for b in c[4::3])
+
+
 def explore_check(ctx, stats):
     """bounded exploration of every interleaving of four two-operation scenarios in the extracted MODEL, whose
     close step order is generated from the source: a lost wake-up is reported with its witness schedule"""
@@ -279,6 +324,8 @@ registry.register("C17", {
          "valid": valid_cursor, "nontrivial": lambda case, out: any(o == 3 for o in case[1::2]) and sum(out) > 0},
         {"name": "rxring", "gen": gen_rxring, "fixed": fixed_rxring, "quick": 20000, "thorough": 300000,
          "valid": valid_rxring, "nontrivial": lambda case, out: len(out) >= 4 and out[-2] > 0},
+        {"name": "txrings", "gen": gen_txrings, "fixed": fixed_txrings, "quick": 20000, "thorough": 300000,
+         "valid": valid_txrings, "nontrivial": lambda case, out: len(out) >= 4 and sum(out[-4:-1]) > 0},
         {"name": "worker", "gen": gen_worker, "fixed": fixed_worker, "quick": 20000, "thorough": 300000,
          "valid": valid_worker, "nontrivial": lambda case, out: len(out) >= 2 and out[-1] > 0},
     ],
